@@ -337,6 +337,26 @@ def check_positions(ctx, lib):
             # (the index in the latter is discharged as a guarded index by the C05 rules)
             guarded_choice = vd == {fixed_t, ("field", ("param", 1), "variadic")}
             v_ok = bool(vd) and (vd == {fixed_t} if case == "fixed" else (all(is_var(x) for x in vd) or guarded_choice))
+            if not v_ok and vd:
+                # the same choice as a case analysis on inputs.get(k) itself (`match (inputs.get(k), &variadic) { (Some(d), _) => d,
+                # (None, Some(v)) => v, .. }`): where get(k) is Some the validator is that very element, where it is None the
+                # variadic type (or, without one, inputs[k] — ruled out by the arity check, kept as the old failure mode)
+                def is_get(x):
+                    return x[0] == "call" and x[1].endswith("::get") and x[2][0] == fs({("field", ("param", 1), "inputs")}) and x[2][1] == fs({("index", ("param", 2))})
+                gsw = []
+                for sb2, sw2 in br0.switches():
+                    ve2 = br0.variant_edges(sb2)
+                    if ve2 and ve2["adt"] == "std::option::Option" and ve2["scrutinee"] and all(is_get(z) for z in ve2["scrutinee"]):
+                        gsw.append((sb2, ve2["edges"].get("Some", ve2["otherwise"]), ve2["edges"].get("None", ve2["otherwise"])))
+                if gsw:
+                    hit = reach_avoiding(v, 0, avoid_edges=avoid | {(sb2, n_) for sb2, s_, n_ in gsw})
+                    miss = reach_avoiding(v, 0, avoid_edges=avoid | {(sb2, s_) for sb2, s_, n_ in gsw})
+                    vd_hit = Origins(v, lib, only_blocks=hit).of_operand(t["args"][4]) if bb in hit else set()
+                    vd_miss = Origins(v, lib, only_blocks=miss).of_operand(t["args"][4]) if bb in miss else set()
+                    hit_ok = bool(vd_hit) and all(is_get(x) or x == fixed_t for x in vd_hit)
+                    want_miss = {fixed_t} if case == "fixed" else {("field", ("param", 1), "variadic")}
+                    miss_ok = not vd_miss or vd_miss == want_miss
+                    v_ok = hit_ok and miss_ok and (case == "fixed" or bool(vd_miss))
             if pos_ok and val_ok and v_ok:
                 kinds.add(case)
             ctx.check(pos_ok and val_ok and v_ok, rule, f"site@{case}",
